@@ -727,6 +727,9 @@ impl<'a> World<'a> {
             Step::DbDrop { d } => {
                 if (*d as usize) < MAX_DBS {
                     let slot = *d as usize;
+                    if self.dbs[slot].is_some() && self.handles.iter().any(|h| h.is_some()) {
+                        self.stats.probe("db-handle-dropped-before-map-handles");
+                    }
                     self.call("drop", |w| w.dbs[slot] = None)?;
                 }
                 Ok(())
@@ -832,6 +835,7 @@ impl<'a> World<'a> {
                 Ok(())
             }
             Step::ForeignOpen { m, as_kt, expect_refused, swapped_from } => self.foreign_open(*m as usize, *as_kt, *expect_refused, *swapped_from),
+            Step::ForeignOpenHtxOnly { m, as_kt, empty } => self.foreign_open_htx_only(*m as usize, *as_kt, *empty),
             Step::Convert { h, k } => with_h!(h, |_m, hd| {
                 if let Some((bv, br, same)) = self.call("key-conversion", |_| hd.roundtrip(k))? {
                     if self.ep.checks.typed && (bv != *k || br != *k || !same) {
@@ -1244,6 +1248,70 @@ impl<'a> World<'a> {
                 return Err(viol("foreign-open", format!("matching-refused:{pair}"), self.step_no, format!("open with the matching key type failed: {outcome}")));
             }
             self.stats.probe("matching-open-accepted");
+        }
+        Ok(())
+    }
+}
+
+impl World<'_> {
+    /// only the bucket table of a map is left (its .key/.val are missing or empty): opening the
+    /// name with a type the table was not made for must be refused, the table must stay unchanged
+    fn foreign_open_htx_only(&mut self, m: usize, as_kt: KType, empty: bool) -> StepResult {
+        if m >= self.maps.len() {
+            return Ok(());
+        }
+        self.close_all()?;
+        let spec = self.maps[m].spec.clone();
+        let paths = self.file_paths(m);
+        kernel::with(|k| {
+            for p in &paths[1..] {
+                if empty {
+                    if let Some(f) = k.file_mut(p) {
+                        f.written.set_len(0);
+                        f.durable = f.written.clone();
+                    }
+                } else {
+                    k.remove_file(p);
+                }
+            }
+        });
+        let before = kernel::with(|k| k.file(&paths[0]).map(|f| f.written.clone()));
+        let path = self.dir_path(spec.dir);
+        kernel::with(|k| k.set_step(self.step_no));
+        self.stats.api_calls += 1;
+        let res = catch_unwind(AssertUnwindSafe(|| -> io::Result<Option<u64>> {
+            let db = abyssiniandb::open_file(&path)?;
+            let mut h = handles::open_map(&db, &spec.name, as_kt, &spec.params)?;
+            let n = h.len()?;
+            let _ = h.flush();
+            Ok(Some(n))
+        }));
+        let outcome = match res {
+            Err(_) => {
+                let (loc, msg) = take_panic();
+                format!("panic at {loc}: {}", normalise(&msg))
+            }
+            Ok(Err(e)) => format!("Err({e})"),
+            Ok(Ok(n)) => format!("accepted (len() = {:?})", n),
+        };
+        let htx_name = paths[0].rsplit('/').next().unwrap_or("").to_string();
+        let wrote: Vec<String> = kernel::with(|k| {
+            k.step_events
+                .iter()
+                .filter(|e| matches!(e.op, KOp::Write | KOp::Ftruncate) && k.inodes[e.ino as usize].path.ends_with(&htx_name))
+                .map(|e| format!("{}@{}", kernel::KOP_NAMES[e.op as usize], htx_name))
+                .collect()
+        });
+        let _ = self.close_all();
+        let after = kernel::with(|k| k.file(&paths[0]).map(|f| f.written.clone()));
+        let pair = format!("{}->{}", spec.kt.name(), as_kt.name());
+        self.stats.probe("htx-only-open");
+        if outcome.starts_with("accepted") {
+            return Err(viol("foreign-open", format!("accepted:{pair}"), self.step_no, format!("bucket table of map '{}' created as {} (its .key/.val {}) was opened as {}: {outcome}", spec.name, spec.kt.name(), if empty { "emptied" } else { "removed" }, as_kt.name())));
+        }
+        self.stats.probe("foreign-open-refused");
+        if before != after || !wrote.is_empty() {
+            return Err(viol("foreign-open", format!("modified:{pair}"), self.step_no, format!("rejected open ({outcome}) changed the bucket table: kernel writes {:?}", wrote)));
         }
         Ok(())
     }
